@@ -1,6 +1,6 @@
 (* C04 — paths and accessors address exactly the leaves. *)
 From OptreeModel Require Import Base Tree Flatten Unflatten Spec Accessor.
-From OptreeProofs Require Import TraversalProofs AccessorProofs.
+From OptreeProofs Require Import TraversalProofs AccessorProofs PathsFree.
 
 (* For every tree whose custom nodes declare pairwise distinct entries, every configuration: the
    i-th path, applied to the tree entry by entry (sequence index, dict key, namedtuple /
@@ -26,6 +26,20 @@ Theorem C04_paths_count :
   exists ps, flatten_with_path c o = Ok (ps, ls, sp) /\ length ps = length ls.
 Proof. exact with_path_agrees_conv. Qed.
 Print Assumptions C04_paths_count.
+
+(* Paths of distinct leaves are distinct and none is a prefix of another: for every configuration and
+   every tree whose custom nodes declare pairwise distinct entries *)
+Theorem C04_paths_prefix_free :
+  forall c o ps ls sp,
+    wf_obj o = true -> entries_ok o = true -> flatten_with_path c o = Ok (ps, ls, sp) -> prefix_free ps.
+Proof. exact flatten_paths_prefix_free. Qed.
+Print Assumptions C04_paths_prefix_free.
+
+(* and for every treespec, however obtained, whose nodes have pairwise distinct entries *)
+Theorem C04_treespec_paths_prefix_free :
+  forall t, entries_nodup t = true -> prefix_free (st_paths t).
+Proof. exact paths_prefix_free. Qed.
+Print Assumptions C04_treespec_paths_prefix_free.
 
 Example C04_example :
   let c := {| c_nil := false; c_ns := 1; c_pred := None;
